@@ -97,7 +97,7 @@ func isCanonicalSpec() *edt.Spec {
 
 func c10Specs() []*edt.Spec {
 	const Y = "Element.SetBytes($compressedY)"
-	const sqrtT = "Element.SqrtRatioI(Element.Sub(Element.Square(" + Y + "), Element.One), Element.Add(Element.Mul(Element.Square(" + Y + "), @curve.constEDWARDS_D), Element.One))"
+	const sqrtT = "Element.SqrtRatioI(Element.Sub(Element.Square(" + Y + "), Element.One), Element.Add(Element.Mul(@curve.constEDWARDS_D, Element.Square(" + Y + ")), Element.One))"
 	const X = "Element.ConditionalNegate(" + sqrtT + ", ($compressedY[31] >> 7))"
 	decodeVars := map[string]string{
 		"(res1(" + sqrtT + ") == 1)": "isValidY",
@@ -205,7 +205,7 @@ func c10Specs() []*edt.Spec {
 		termSpec("curve", "(*EdwardsPoint).IsSmallOrder", []string{"EdwardsPoint.MulByCofactor", "EdwardsPoint.IsIdentity"}, "EdwardsPoint.IsIdentity(EdwardsPoint.MulByCofactor($p))"),
 		termSpec("curve", "(*EdwardsPoint).IsTorsionFree", []string{"EdwardsPoint.Mul", "EdwardsPoint.IsIdentity"}, "EdwardsPoint.IsIdentity(EdwardsPoint.Mul($p, @curve/scalar.BASEPOINT_ORDER))"),
 		termSpec("curve", "(*EdwardsPoint).IsIdentity", []string{"EdwardsPoint.Equal", "EdwardsPoint.Identity"}, "(EdwardsPoint.Equal($p, EdwardsPoint.Identity) == 1)"),
-		termSpec("curve", "(*EdwardsPoint).Equal", nil, "(Element.Equal(Element.Mul($p.inner.X, $other.inner.Z), Element.Mul($other.inner.X, $p.inner.Z)) & Element.Equal(Element.Mul($p.inner.Y, $other.inner.Z), Element.Mul($other.inner.Y, $p.inner.Z)))"),
+		termSpec("curve", "(*EdwardsPoint).Equal", nil, "(Element.Equal(Element.Mul($other.inner.X, $p.inner.Z), Element.Mul($other.inner.Z, $p.inner.X)) & Element.Equal(Element.Mul($other.inner.Y, $p.inner.Z), Element.Mul($other.inner.Z, $p.inner.Y)))"),
 		termSpec("curve", "(*EdwardsPoint).MarshalBinary", []string{"CompressedEdwardsY.SetEdwardsPoint", "CompressedEdwardsY.MarshalBinary"},
 			"res0(CompressedEdwardsY.MarshalBinary(CompressedEdwardsY.SetEdwardsPoint($p))) ; err(CompressedEdwardsY.MarshalBinary(CompressedEdwardsY.SetEdwardsPoint($p)))"),
 	}
